@@ -146,7 +146,7 @@ def _bindings(fn, name: str) -> list:
         if isinstance(n, ast.Assign):
             for t in n.targets:
                 for x in ast.walk(t):
-                    if isinstance(x, ast.Name) and x.id == name:
+                    if isinstance(x, ast.Name) and x.id == name and isinstance(x.ctx, ast.Store):
                         out.append(n.value if (len(n.targets) == 1 and t is x) else None)
         elif isinstance(n, (ast.AugAssign, ast.AnnAssign)) and isinstance(n.target, ast.Name) and n.target.id == name:
             out.append(n.value if isinstance(n, ast.AnnAssign) and n.value is not None else None)
